@@ -28,8 +28,8 @@
 // read error) of the live filesystem resp. of a second filesystem loaded from the saved text ('x' =
 // no text, 'E' = the text does not load), and <store> the sorted <md5[:12]>+<size> of every block
 // the stub holds. After every op the driver waits until all background flushes have finished (except
-// between hflush and release). An op that does not return within 30 s, or a Keep write slot that is
-// still taken 10 s after every write has returned, ends the case with the result "hang".
+// between hflush and release). An op that does not return within 60 s, or a Keep write slot that is
+// still taken 20 s after every write has returned, ends the case with the result "hang".
 //
 // A non-trivial failure script needs concurrentWriters = 1 (then background writes reach the stub in
 // the order they were started); such a case with another value answers bad-op.
@@ -284,7 +284,7 @@ type verifC09State struct {
 	hung    bool // a Keep write slot stayed taken although no write can be in progress
 }
 
-const verifC09Patience = 10 * time.Second
+const verifC09Patience = 20 * time.Second
 
 func verifC09Walk(n inode, path string, f func(path string, n inode)) {
 	switch n := n.(type) {
